@@ -132,7 +132,7 @@ def main(tier, replay=None):
             kinds[o[0]] = kinds.get(o[0], 0) + 1
             statuses[o[0] + ":" + st] = statuses.get(o[0] + ":" + st, 0) + 1
             cur = incs(out)
-            if gone_fabric and o[0] in "QSBEHesD":
+            if gone_fabric and o[0] in "QSBEHesDbr":
                 probe = True
             if prev is not None and (prev - cur):
                 gone_fabric = True       # an incarnation left the fabric table in this step
